@@ -183,6 +183,21 @@ def check(run: Run) -> None:
             if repr(a) != repr(b):
                 helper_fail.append((f"swap{bits}", v, "", repr(a), repr(b)))
 
+    # the native spellings "@" and "=" denote the platform's byte order at every width (oracle only: the model's domain is <, >, !)
+    import sys as _sys
+    for sp in ("@", "="):
+        for bits in (8, 16, 24, 32, 48, 64, 128):
+            for v in (0, 1, 0x7F, (1 << (bits - 1)) - 1, (1 << bits) - 1, -1, -(1 << (bits - 1))):
+                want = (v % (1 << bits)).to_bytes(bits // 8, _sys.byteorder)
+                got = impl_call("pack", v, bits, sp)
+                back = impl_call("unpack", want, bits, sp, v < 0)
+                if got != want or back != v:
+                    helper_fail.append(("pack/unpack", v, sp, repr((got, back))[:120], repr((want, v))[:120]))
+                if bits in (8, 16, 32, 64):
+                    a = impl_call(f"p{bits}", v, sp)
+                    if a != want:
+                        helper_fail.append((f"p{bits}", v, sp, repr(a)[:80], repr(want)[:80]))
+
     # ---- correspondence shards ----
     items = []
     for (data, pal, off, prefix), out in zip(hd, hd_out):
